@@ -332,20 +332,30 @@ fn render_unsigned(v: u32, ch: &mut Choices, labels: OffsetLabels) -> String {
     let c = ch.next();
     match c % 8 {
         0..=2 => format!("{}", v),
+        // one hexadecimal / binary constant in four is zero-padded beyond the width of its operand
         3 => {
             ch.n_radix += 1;
-            format!("0x{:x}", v)
+            if ch.next() % 4 == 0 {
+                format!("0x000{:x}", v)
+            } else {
+                format!("0x{:x}", v)
+            }
         }
         4 => {
             ch.n_radix += 1;
-            format!("0X{:X}", v)
+            if ch.next() % 4 == 0 {
+                format!("0X00{:X}", v)
+            } else {
+                format!("0X{:X}", v)
+            }
         }
         5 => {
             ch.n_radix += 1;
+            let pad = if ch.next() % 4 == 0 { "000" } else { "" };
             if ch.next() & 1 == 1 {
-                format!("0b{:b}", v)
+                format!("0b{}{:b}", pad, v)
             } else {
-                format!("0B{:b}", v)
+                format!("0B{}{:b}", pad, v)
             }
         }
         6 => {
